@@ -4,6 +4,7 @@ EXTENDS DeployNotary
 NoDev    == {}
 Code     == {"IndexShift", "MapOrder"}
 OnlyMap  == {"MapOrder"}
+Tried    == {"TriedSticky"}
 NoAbsent == {}
 A1       == {1}
 A2       == {2}
